@@ -21,16 +21,16 @@ type vaultObs struct {
 }
 
 type C07 struct {
-	st   *Stats
-	prev *vaultObs
-	pre  *vaultObs // before the current bond/unbond/open message
-	preW *big.Int  // signer's deposit-denom wallet before the message
-	preS *big.Int  // signer's shares before the message
-	tx   *chain.TxRecord
+	st       *Stats
+	prev     *vaultObs
+	pre      *vaultObs // before the current bond/unbond/open message
+	preW     *big.Int  // signer's deposit-denom wallet before the message
+	preS     *big.Int  // signer's shares before the message
+	tx       *chain.TxRecord
 	lastBond map[string][3]*big.Int // signer -> (height, deposited, minted) of its last bond
 }
 
-func NewC07() *C07          { return &C07{st: NewStats("C07"), lastBond: map[string][3]*big.Int{}} }
+func NewC07() *C07           { return &C07{st: NewStats("C07"), lastBond: map[string][3]*big.Int{}} }
 func (m *C07) Stats() *Stats { return m.st }
 
 func (m *C07) observe(w *chain.World, ctx sdk.Context) *vaultObs {
